@@ -18,10 +18,6 @@ import (
 	"github.com/apache/arrow-go/v18/arrow/memory"
 )
 
-// epochUTC is the Unix epoch interpreted as UTC; used to derive Arrow
-// date32 / time64 / timestamp values from Go time.Time.
-var epochUTC = time.Date(1970, 1, 1, 0, 0, 0, 0, time.UTC)
-
 // asTime converts value to a time.Time, accepting either a plain time.Time
 // or a named type whose underlying type is time.Time (so handlers can
 // declare a typed alias that implements AnnotatedReturn).
@@ -87,10 +83,19 @@ func asBytes(value any) ([]byte, bool) {
 	return nil, false
 }
 
-// daysSinceEpoch returns the number of full UTC days between t and the
-// Unix epoch — the Arrow date32 wire encoding.
+// daysSinceEpoch returns the UTC calendar day of t as days since the Unix
+// epoch — the Arrow date32 wire encoding. It floors on Unix seconds:
+// time.Time.Sub saturates at ±292 years, and dividing a negative duration
+// truncates toward zero, which would put every instant before 1970 on the
+// following day.
 func daysSinceEpoch(t time.Time) int32 {
-	return int32(t.UTC().Sub(epochUTC) / (24 * time.Hour))
+	const secondsPerDay = 24 * 60 * 60
+	sec := t.Unix()
+	days := sec / secondsPerDay
+	if sec%secondsPerDay < 0 {
+		days--
+	}
+	return int32(days)
 }
 
 // microsSinceMidnight returns the wall-clock microsecond offset of t
